@@ -259,4 +259,16 @@ PROPS["C17"] = {
     "explanation": "hash-seed independence proved for the only set-ordered loop + frame; environment factors bounded",
 }
 
+PROPS["C04"] = {
+    "level": "other",
+    "technique": "deductive verification of random access through the index (sequence_bytes over the ghost faidx layout), of the index record, layout and stream-back lemmas over the contracts; the indexing pass itself (index_fasta_file) by a bounded exhaustive oracle over small well-formed files x all buffer sizes",
+    "level_text": "Proved: for every faidx entry with residues_per_line >= 1 and a line terminator of at least one byte and every interval 1 <= start <= end <= length, sequence_bytes returns exactly residues start..end in order - each read starts on the next expected residue at byte offset + (g // rpl) * mll + g % rpl, stays within one line (never a terminator byte) and within the record - for all line widths, CRLF or LF, intervals crossing any number of lines; FastaInfo stores the four numbers as given; get_fasta_seq is sequence_bytes(info, 1, length); lemmas: the layout function is the faidx layout (consecutive residues contiguous within a line, terminator skipped between lines), and a derived assembly that tiles the record (fragment rows carrying their own record coordinates, gaps of the right length) streams back position by position. NOT proved, bounded: index_fasta_file - that the quintuple and the tiling it produces describe the file (incl. files without a final newline, the defect repaired in 36b04bb), run merging across buffer flushes, duplicate names / empty files rejected.",
+    "level_note": "index_fasta_file (two closures sharing nonlocal state over a line iterator, a BytesIO buffer and re.finditer) is not under contract in this round; its behaviour is decided by the bounded tier only (all files with up to 3 records of up to 7-10 residues x 24 layouts x every buffer size, against an independent faidx/tiling oracle).",
+    "lemmas": ["c04_random_access_layout", "c04_derived_assembly_streams_back"],
+    "bounded": [("bounded.c04", {})],
+    "trusted": FASTA_TRUSTED,
+    "assumptions": ["well-formed FASTA as in the statement"],
+    "explanation": "random access proved for all layouts; the indexing pass bounded",
+}
+
 NOT_APPLICABLE = {}
